@@ -261,6 +261,8 @@ func RunEntry(l *driver.Loaded, b *Builder, entryKey string, opt RunOpts) (*Entr
 					hd = nil // no other plugin calls this helper: only its parameter list is specified
 				}
 				rep.Results = append(rep.Results, ores(entryKey, "header", "", vid, len(hd) == 0, strings.Join(hd, "; ")+" on path "+desc, in.Src))
+				own := in.CheckOwnership()
+				rep.Results = append(rep.Results, ores(entryKey, "ownership", "inputs-unmodified", vid, len(own) == 0, strings.Join(own, "; ")+" on path "+desc, in.Src))
 				if opt.NoVC || len(con.Attrs["o-ensures"]) == 0 && len(con.Attrs["serves"]) == 0 {
 					continue
 				}
@@ -270,8 +272,13 @@ func RunEntry(l *driver.Loaded, b *Builder, entryKey string, opt RunOpts) (*Entr
 				}
 				e, err := in.Verify()
 				if err != nil {
-					return nil, fmt.Errorf("%s: path %s: %v\n%s", entryKey, desc, err, in.Src)
+					// the contract no longer fits the emitted code (a loop it names is gone,
+					// a name it uses is not declared, ...): the proof that exists for the
+					// pinned tree cannot be rebuilt
+					rep.Results = append(rep.Results, ores(entryKey, "contract-applies", "", vid, false, err.Error()+" on path "+desc, in.Src))
+					continue
 				}
+				rep.Results = append(rep.Results, ores(entryKey, "contract-applies", "", vid, true, "", ""))
 				probes++
 				if probes > 3 {
 					// vacuity probes are kept for the first paths only: entry states of
